@@ -196,7 +196,10 @@ func genC01(seed int64, tier string) *Scenario {
 	sc.Sched = RandomSched(r)
 	if r.Intn(3) == 0 {
 		// a small live-analysis cache: the eviction path runs with a handful of edited documents
-		sc.Sched.Knobs = map[string]int{"lru": 1 + r.Intn(3)}
+		if sc.Sched.Knobs == nil {
+			sc.Sched.Knobs = map[string]int{}
+		}
+		sc.Sched.Knobs["lru"] = 1 + r.Intn(3)
 	}
 	g := newLuaGen(r)
 	nfiles := 1 + r.Intn(9)
